@@ -112,11 +112,53 @@ def main():
         import threading
         budget = 1800 if a.tier == "quick" else 4 * 3600
 
+        stall = float(os.environ.get("VERIF_STALL", "150" if a.tier == "quick" else "600"))
+        main_id = threading.main_thread().ident
+        repo_prefix = str(common.REPO) + os.sep
+
         def watchdog():
-            print("INFRA-ERROR property=%s: the check did not finish within %d s (the code under test or the harness does not terminate)" % (pid, budget), flush=True)
-            os._exit(2)
-        wd = threading.Timer(budget, watchdog)
-        wd.daemon = True
+            """samples the main thread: one and the same call from the harness into the code under test that is still
+            running — with the innermost Python frame inside the code under test, i.e. not waiting on a stand-in or on the
+            Lean driver — after `stall` seconds is reported as a violation (the implementation does not terminate on an
+            input inside the property's domain); the overall budget is an infrastructure failure"""
+            import time as _t
+            t0 = _t.time()
+            key, since = None, _t.time()
+            while True:
+                _t.sleep(1.0)
+                now = _t.time()
+                if now - t0 > budget:
+                    print("INFRA-ERROR property=%s: the check did not finish within %d s (the code under test or the harness does not terminate)" % (pid, budget), flush=True)
+                    os._exit(2)
+                fr = sys._current_frames().get(main_id)
+                stack = []
+                while fr is not None:
+                    stack.append(fr)
+                    fr = fr.f_back
+                stack.reverse()                      # outermost first
+                first_repo = next((i for i, f in enumerate(stack) if f.f_code.co_filename.startswith(repo_prefix)), None)
+                inner_in_repo = bool(stack) and stack[-1].f_code.co_filename.startswith(repo_prefix)
+                if first_repo is None or first_repo == 0 or not inner_in_repo:
+                    key = None
+                    continue
+                caller = stack[first_repo - 1]
+                k = (id(caller), caller.f_lasti, id(stack[first_repo]))
+                if k != key:
+                    key, since = k, now
+                    continue
+                if now - since >= stall:
+                    where = ["%s:%d %s" % (f.f_code.co_filename.replace(repo_prefix, ""), f.f_lineno, f.f_code.co_name) for f in stack[first_repo:]][-6:]
+                    res.violation("implementation does not terminate at %s" % where[0].split(":")[0],
+                                  "a call into the implementation (from %s:%d) has been running for %d s with the innermost frame inside the implementation: %s" % (
+                                      os.path.basename(caller.f_code.co_filename), caller.f_lineno, int(now - since), " > ".join(where)),
+                                  {"stalled_for_s": int(now - since), "stack": where, "called_from": "%s:%d" % (caller.f_code.co_filename, caller.f_lineno)})
+                    try:
+                        code = res.finish()
+                    except Exception:
+                        code = 1
+                    sys.stdout.flush()
+                    os._exit(code or 1)
+        wd = threading.Thread(target=watchdog, daemon=True)
         wd.start()
         try:
             mod.run(res, a.tier, build_ok and not drift)
